@@ -495,6 +495,8 @@ struct Child
                 if (!d.get_errors().empty())
                     w.key("tc_err0").str(d.get_errors()[0].msg);
                 w.key("type").str(vd::kind_name(e.get_type().get_kind()));
+                // kind with range / label / prefix wrappers removed (int and int[0,3] are both INT)
+                w.key("btype").str(e.get_type().unknown() ? "UNKNOWN" : vd::kind_name(e.get_type().strip().get_kind()));
                 w.key("tdump").str(dm.expr(e));
             }
             if (roundtrip) {
